@@ -18,14 +18,14 @@ PROPS = {
 }
 
 PROPS["C02"] = dict(
-    rule="streams of 1..8 canonical values (C01 generator; plus 19 streams with a bulk of 511..70000 bytes - sizes around 512/1Ki/4Ki/8Ki/64Ki - alone, inside an array and mid-pipeline, always with values behind it) x partitions of their byte stream: whole, all-1-byte, every 2-way split point "
+    rule="round 2: the null array as a value kind; long runs of 9..130 null arrays and of mixed null arrays / null bulks / empty arrays / empty bulks / small commands with command arrays between and behind them; chains of nested arrays 7..48 deep - whole, byte by byte, random partitions; streams of 1..8 canonical values (C01 generator; plus 19 streams with a bulk of 511..70000 bytes - sizes around 512/1Ki/4Ki/8Ki/64Ki - alone, inside an array and mid-pipeline, always with values behind it) x partitions of their byte stream: whole, all-1-byte, every 2-way split point "
          "(exhaustive for streams <=300 bytes quick / <=3000 thorough, 40 sampled beyond), 6 random k-way partitions; "
          "delivered by a scripted io.Reader that never crosses a segment boundary, once announcing the end in a separate read (0, io.EOF) and once together with the last bytes (n>0, io.EOF; chunkse); bulk sizes 2^k+c for k<=20; non-trivial = every case (>=1 value); distinct = distinct case line",
     trusted_base=[KERNEL, TIE, "io.Reader contract: >=1 byte unless at end of stream; the end is announced as (0, io.EOF) or together with the last bytes (n>0, io.EOF) (net.TCPConn, tls.Conn, net.Pipe, bytes.Buffer, bufio)"],
     assumptions=["readers returning (0, nil) are outside the modelled transport contract"],
 )
 PROPS["C06"] = dict(
-    rule="hostile streams: hand-picked near-valid frames (whole and byte-by-byte), deep nesting up to the 1 MiB bound (65536, 131072, 262143 levels, in an isolated child), and structure-aware mutations of valid streams "
+    rule="round 2: longline - one line of 4095..131073 (thorough 1 MiB) bytes behind each type byte, top level and as array element, ending with CRLF / lone CR / a further value / the end of the stream, whole and in two reads; hostile streams: hand-picked near-valid frames (whole and byte-by-byte), deep nesting up to the 1 MiB bound (65536, 131072, 262143 levels, in an isolated child), and structure-aware mutations of valid streams "
          "(truncate, splice, flip, duplicate, edit length/count digits to boundary integers 2^31-1, 2^31, 2^63-2, 2^63-1, 10^13, -1, -2^63, 512MiB+-1, "
          "drop/double CR/LF), random bytes; bulks whose length is 2^k+c (k<=20, c in -2..2) with the payload present, one byte short, and absent (bulk); in the thorough tier every bulk length up to 1 MiB from a synthetic reader (bulksweep; quick: windows around the powers of two); a per-case deadline in the harness (60 s) turns a hang into a reported failure; declared sizes >=10^7 run in an isolated child (GOMEMLIMIT, 5 s); "
          "non-trivial = every case; distinct = distinct case line",
@@ -43,12 +43,12 @@ SERVE_AS = ["transport contract of C02", "command and option names in generated 
             "EXPIRE ttl within +-10^8 s and EXPIREAT timestamps away from the current time so the double can tell them apart"]
 
 PROPS["C03"] = dict(canon="serve", timeout=1200,
-    rule="round 2: borderRequests - every pair of 15 border integers (0,+-1,+-2,2^62-1,+-2^62,-2^62-1,2^63-2,+-(2^63-1),-2^63,2^63/3,2^64/3) in every count/index/offset/limit position of 13 commands over a six-element reply, then PING and ECHO; pipelines of 1..12 requests over every registered command (valid, ill-formed by C10's classes, unknown, surplus arguments, QUIT) "
+    rule="round 2: conc3: 3..8 connections x 200..600 requests mixing composed commands with plain reads/writes, every request answered within 10 s; borderRequests - every pair of 15 border integers (0,+-1,+-2,2^62-1,+-2^62,-2^62-1,2^63-2,+-(2^63-1),-2^63,2^63/3,2^64/3) in every count/index/offset/limit position of 13 commands over a six-element reply, then PING and ECHO; pipelines of 1..12 requests over every registered command (valid, ill-formed by C10's classes, unknown, surplus arguments, QUIT) "
          "x handler scripts (every message type, errors) x chunkings (whole, per request, per byte, two random partitions); plus every ZADD flag combination; "
          "observables: ordered trace of handler calls and writes, replies written at each blocking point; non-trivial = every case; distinct = distinct case line",
     trusted_base=SERVE_TB, assumptions=SERVE_AS + ["handler results that make the framework dereference nil (nil message without error) end the connection; they are outside C03's domain"])
 PROPS["C04"] = dict(canon="serve", timeout=1200,
-    rule="round 2: composedShapeCases - 30 derived/reply-walking commands x 34 handler reply shapes (nothing, error, error+message, scalars, arrays with null/nested/integer/status/absent elements, odd lengths), fresh and memo reply objects, each followed by PING; bulk replies of 10^k-1,10^k,10^k+1,2^12+-1,2^16+-1 bytes with forged frames from ECHO, GET and LRANGE; client streams made of RESP values of every type, command names/arguments with CRLF + forged +OK/:1/$-1 frames, null/nested/empty command arrays, "
+    rule="round 2: replies that cannot be serialised behind 1..6 elements of 3000 bytes (absent element, nil array) between two PINGs; composedShapeCases - 30 derived/reply-walking commands x 34 handler reply shapes (nothing, error, error+message, scalars, arrays with null/nested/integer/status/absent elements, odd lengths), fresh and memo reply objects, each followed by PING; bulk replies of 10^k-1,10^k,10^k+1,2^12+-1,2^16+-1 bytes with forged frames from ECHO, GET and LRANGE; client streams made of RESP values of every type, command names/arguments with CRLF + forged +OK/:1/$-1 frames, null/nested/empty command arrays, "
          "with and without a command handler, with a handler that keeps its reply objects and hands the same *Message out again, partly read (memo) x handler results of every message type incl. nil message, nil array, nil element, errors with CRLF, message+error; "
          "a reader that pauses 6..8 s inside a 20..80 KB reply with further requests pipelined (stallr, unbuffered pipe: any write timeout an implementation may have expires); plus concurrent cases (conc4): 2..6 connections on the example store with 1..16 KiB array replies (LRANGE, MGET, ZRANGE WITHSCORES), each read in 5..20-byte pieces with scheduling "
          "points in between over unbuffered pipes, every connection's bytes compared exactly with the model's replies; "
@@ -60,7 +60,7 @@ PROPS["C05"] = dict(canon="serve", timeout=1200,
          "non-trivial = every case; distinct = distinct case line",
     trusted_base=SERVE_TB, assumptions=SERVE_AS)
 PROPS["C07"] = dict(canon="serve", timeout=1200,
-    rule="round 2: extremeStoreCases - the example store behind the framework: a data set, then one command with each of 25 numbers (15 border integers, 10 counts in the window where make accepts what the runtime cannot allocate) in every count/index/offset/limit/increment position of 14 commands, empty keys/values/members, inverted ranges, then PING and two reads; composedShapeCases as in C04; hostile streams: empty/null/nested command arrays, non-array values, mutated valid requests (C06 mutators), every command with boundary arguments, "
+    rule="round 2: KEYS with patterns a backtracking matcher does not come back from, on a 64-byte repetitive key; extremeStoreCases - the example store behind the framework: a data set, then one command with each of 25 numbers (15 border integers, 10 counts in the window where make accepts what the runtime cannot allocate) in every count/index/offset/limit/increment position of 14 commands, empty keys/values/members, inverted ranges, then PING and two reads; composedShapeCases as in C04; hostile streams: empty/null/nested command arrays, non-array values, mutated valid requests (C06 mutators), every command with boundary arguments, "
          "disconnect at arbitrary points x wild handler results (nil message, nil array, nil elements, odd-length arrays, errors); "
          "mass-disconnect cases (massdisc: 50 and 200 clients closed at the same instant, then a witness and an empty registry); plus stalled-writer witness cases (stallw): 1..3 clients that pipeline requests and never read, over unbuffered pipes, on the double and on the example store, while witness "
          "connections opened afterwards must get exact replies; "
@@ -87,20 +87,20 @@ SYS_TB = [KERNEL, TIE, HOOK + ", one goroutine per connection, requests released
           "recording handler double that also probes the connection-scoped user data (sync.Map of redis.Conn)",
           "what Server.Start does for requirepass (installing the clear-text authenticator) is replicated by the harness"]
 PROPS["C08"] = dict(canon="sys", timeout=1200,
-    rule="per password (5 passwords incl. spaces and CRLF): every candidate of the dictionary (empty, each strict prefix, extensions incl. NUL/CRLF, case variants, wrong/same user names, "
+    rule="round 2: 23 kinds of first requests of an unauthenticated client (unknown commands like HELLO 3, requests answered with an error, composed commands, non-array values, AUTH with a wrong argument count), alone and followed by a refused AUTH, then the probes, and the same followed by the exact password; per password (5 passwords incl. spaces and CRLF): every candidate of the dictionary (empty, each strict prefix, extensions incl. NUL/CRLF, case variants, wrong/same user names, "
          "missing/null arguments) in the one- and two-argument form and in other letter cases, followed by probes; exact forms; wrong-after-right and right-after-wrong; "
          "all interleavings of 2 connections x 6 programs (3 connections in thorough); random histories over 1..3 connections mixing AUTH candidates with every command; every third case also on connections served as TLS connections are (tlsState present), and with an application AUTH handler that reports refusals as error messages (authmsg); on real sockets: password rotation (requirepass changed, Restart, old and new password probed on old and new connections); "
          "oracle: no handler call and no non-error reply on a connection before its own exact AUTH; exact AUTH answered +OK; non-trivial = every case",
     trusted_base=SYS_TB, assumptions=["no TLS certificate rule configured (that is C09)", "requests are atomic with respect to connection-scoped state (only the connection's own goroutine touches it)"])
 PROPS["C13"] = dict(canon="sys", timeout=1200,
-    rule="all interleavings of two connections x 4x4 programs of SELECT/data commands (incl. failing SELECT and QUIT), random histories over 2..8 connections mixing SELECT, AUTH (right/wrong, one- and two-argument form, built-in and application AUTH handler) "
+    rule="round 2: SELECT with 14 border indexes (2^31-1 .. 2^64+1, negative, non-decimal) on one connection with data commands on two; all interleavings of two connections x 4x4 programs of SELECT/data commands (incl. failing SELECT and QUIT), random histories over 2..8 connections mixing SELECT, AUTH (right/wrong, one- and two-argument form, built-in and application AUTH handler) "
          "and data commands, with and without a password; oracle: every handler call sees the database of its own connection's last successful SELECT, its own authorization, its own user data, "
          "and the outcome of a one-argument AUTH depends on its own argument only; "
          "non-trivial = every case",
     trusted_base=SYS_TB, assumptions=["concurrent (unserialised) execution is exercised by C14/C16's workloads; here requests are released one at a time"])
 
 PROPS["C17"] = dict(
-    rule="round 2: a third family of complete enumerations (patterns <=3 over a,*,? + three more characters, keys <=2) for eight triples of path/shell/class characters through glob.Compile and KEYS/SCAN MATCH of the populated example store; / : newline in the random alphabet; complete enumeration: every pattern of length <=4 (quick) / <=5 (thorough) over {a,b,*,?,.,+,(,|,$} against every key of length <=3 / <=4 over the same alphabet "
+    rule="round 2: non-ASCII literal tokens (2-, 3-, 4-byte sequences) in patterns and keys; patterns on which a backtracking matcher explodes (n stars x repetitive keys); a third family of complete enumerations (patterns <=3 over a,*,? + three more characters, keys <=2) for eight triples of path/shell/class characters through glob.Compile and KEYS/SCAN MATCH of the populated example store; / : newline in the random alphabet; complete enumeration: every pattern of length <=4 (quick) / <=5 (thorough) over {a,b,*,?,.,+,(,|,$} against every key of length <=3 / <=4 over the same alphabet "
          "(one case = one pattern, result = bitmap over all keys); the same enumeration over the second alphabet {a,*,?,backslash,E,Q,[} (regexp quoting); random longer patterns over every regexp metacharacter with keys derived from the pattern; "
          "keyscan cases: the bundled example store populated with every key of length 1..2 (3) over the alphabet, KEYS p and SCAN 0 MATCH p COUNT 100000 for every pattern of length <=3 (4), "
          "both compared with the glob semantics and with each other; "
@@ -120,7 +120,7 @@ PROPS["C18"] = dict(canon="xserve", model_is_oracle=True, timeout=1200,
     assumptions=["each key is used with one data type; no expiry; SET options other than NX/GET, ZADD flags, LPOP k 0/1 distinctions, SCAN cursors are outside the claimed space (DESIGN.md Appendix B)"])
 
 PROPS["C12"] = dict(canon="serve", prep=True, model_is_oracle=False, timeout=1200,
-    rule="round 2: MSETNX/MSET naming one key twice followed by GET/STRLEN/MGET in the string programs (handler double, real string store, sequential specification); programs run through the real framework with a handler double that replays the results of the Lean reference store (computed per program by `modeldriver prep`): "
+    rule="round 2: 14 counter border cases (MinInt64 as decrement, sums landing on a border / one beyond) through the double and the real string store; MSETNX/MSET naming one key twice followed by GET/STRLEN/MGET in the string programs (handler double, real string store, sequential specification); programs run through the real framework with a handler double that replays the results of the Lean reference store (computed per program by `modeldriver prep`): "
          "GETRANGE/SUBSTR for lengths 0..6 x start,end in -9..9 and ZREVRANGE for sizes 0..5 x start,stop in -7..7 with and without scores (both enumerated exhaustively, with the reply Redis "
          "defines computed independently in Go as the oracle), ZREVRANGEBYSCORE over 10x10 bounds (open, closed, infinite) x WITHSCORES x 14 LIMIT forms (small, negative, and offsets/counts at the int64 borders) on a set with a score tie (Redis oracle), "
          "counters at the 64-bit boundaries and on stored values in Go literal syntax (0x10, 0b11, 1_000 ...), MGET/HMGET with 255..1100 keys, random programs of 1..12 commands over every framework-implemented command, string programs of 1..10 commands checked reply by reply against an "
@@ -133,13 +133,13 @@ LIFE_TB = [KERNEL, TIE, "a real server on loopback ports (chosen by bind probe),
            "crypto/tls and crypto/x509 decide which handshakes verify (the model takes the verdict per credential kind as given)",
            "OS socket semantics; goroutines are counted by stack frames of the framework"]
 PROPS["C15"] = dict(timeout=1800,
-    rule="round 2: flood:<id> (96 ECHO requests of 256 KiB, no reply read: the server's write blocks) and drain:<id> with Stop/Restart sequences, plain and TLS; every sequence of Start/Stop/Restart of length <=4 (quick; <=3 with TLS) / <=6 (thorough), with after each call: observation (registry, ports bindable?, framework goroutines), a client on every enabled port, "
+    rule="round 2: crash:<id> (a request that makes the handler panic) with other connections open, before Stop/Restart; flood:<id> (96 ECHO requests of 256 KiB, no reply read: the server's write blocks) and drain:<id> with Stop/Restart sequences, plain and TLS; every sequence of Start/Stop/Restart of length <=4 (quick; <=3 with TLS) / <=6 (thorough), with after each call: observation (registry, ports bindable?, framework goroutines), a client on every enabled port, "
          "a client that connects and idles across the next call; plus random histories of clients connecting, idling, disconnecting (close, QUIT, RST, unread) between the calls; "
          "forced schedules (hook H2): 3 scenarios x every single and every pair of 8 schedule points (quick) / every subset (thorough) delayed by 25 ms; stop storms (Stop while 4 clients keep "
          "connecting, 3 s watchdog) 40 / 400 rounds; faulty TLS clients (every handshake fault of C09) before and across Stop/Restart; non-trivial = every case",
     trusted_base=LIFE_TB, assumptions=["the interleavings of lifecycle calls with exiting accept loops / connection goroutines are forced by delaying goroutines at the verif schedule points (not enumerated by a blocking controller) and covered for every schedule by the Lifecycle transition system"])
 PROPS["C19"] = dict(timeout=1800,
-    rule="round 2: blocked writers (flood/drain) ended by Stop, Restart, client close and reset; every ending mode (client close, TCP reset - also underneath TLS -, QUIT, malformed frame, half request then close, cut between CR and LF of a header (3 cut points), cut inside a bulk payload, pipelined requests left unread) and Stop with clients stalled inside a request, at pipeline positions 0..2 on the plain and the TLS port; every TLS handshake fault (plain text, garbage, abort after ClientHello, no / self-signed / "
+    rule="round 2: crash as an ending at every position and in the churn; blocked writers (flood/drain) ended by Stop, Restart, client close and reset; every ending mode (client close, TCP reset - also underneath TLS -, QUIT, malformed frame, half request then close, cut between CR and LF of a header (3 cut points), cut inside a bulk payload, pipelined requests left unread) and Stop with clients stalled inside a request, at pipeline positions 0..2 on the plain and the TLS port; every TLS handshake fault (plain text, garbage, abort after ClientHello, no / self-signed / "
          "foreign / expired certificate, rejected name), a stalled handshake ended by the client and by Stop; Stop with several connections in flight; a second Start that fails while connections are open; churn of 150 (quick) / 10^4 (thorough) connect-disconnect cycles mixing all "
          "endings with up to 32 in flight; oracle: registry, goroutines and listening sockets at their baseline after every ending; non-trivial = every case",
     trusted_base=LIFE_TB, assumptions=["descriptor tables and TCP reset semantics are the kernel's; the model claims the control flow reaches the releases, the tie observes the effect"])
@@ -166,7 +166,7 @@ PROPS["C14"] = dict(race="always", shards=4, timeout=600,
 )
 
 PROPS["C16"] = dict(post="linhist", timeout=1800,
-    rule="round 2: snap workloads - whole-container reads (SMEMBERS/HKEYS/ZRANGE/LRANGE) of containers of 40 and 3000 (thorough up to 8000) entries in the example store against a writer that keeps taking one entry out and putting it back; every reply must be a state the container was in (oracle only, empty history for the checker); concurrent histories recorded against the real connection loops (hook H1, one goroutine per connection over net.Pipe): 2..8 clients, 6..14 operations in total "
+    rule="round 2: bigarg: 4..12 clients each writing and reading back values of 5000/49152/200000 bytes on their own key; snap workloads - whole-container reads (SMEMBERS/HKEYS/ZRANGE/LRANGE) of containers of 40 and 3000 (thorough up to 8000) entries in the example store against a writer that keeps taking one entry out and putting it back; every reply must be a state the container was in (oracle only, empty history for the checker); concurrent histories recorded against the real connection loops (hook H1, one goroutine per connection over net.Pipe): 2..8 clients, 6..14 operations in total "
          "over 1..3 keys, drawn from GET/SET/SETNX/GETSET/INCR/DECRBY/APPEND/MSETNX/DEL in 12 kind mixes (counter-only, SETNX races, MSETNX vs DEL, mixed), "
          "half against the bundled example store, half against a reference handler whose primitives are atomic with scheduling points (Gosched / 20-220us sleeps, seeded) "
          "before and after every primitive so that composed commands interleave unless something serialises them; in a third of the histories some clients connect late, while others are already executing; invocation/response order from one atomic clock; "
